@@ -591,7 +591,7 @@ fn gen_helper(ctx: &Context, cfg: &GenCfg, rng: &mut Rng, graphs: &[Graph], sigs
     }
     g.set_output_node(pool.nodes[output].clone()).ok()?;
     g.finalize().ok()?;
-    Some((GraphD { steps: pool.steps, output, annotations }, g, HelperSig { inputs, iterate }))
+    Some((GraphD { steps: pool.steps, output, annotations, ..Default::default() }, g, HelperSig { inputs, iterate }))
 }
 
 pub fn gen_input_types(cfg: &GenCfg, rng: &mut Rng) -> Vec<Type> {
@@ -659,7 +659,7 @@ pub fn gen_prog(cfg: &GenCfg, rng: &mut Rng) -> Option<Prog> {
     } else {
         n - 1 - rng.usize_below(n.min(3))
     };
-    gds.push(GraphD { steps: pool.steps, output, annotations: vec![] });
+    gds.push(GraphD { steps: pool.steps, output, annotations: vec![], ..Default::default() });
     Some(Prog { graphs: gds })
 }
 
